@@ -6,6 +6,7 @@ import EaselModel.Alphabet.TypeModel
 import EaselModel.Alphabet.Sq2Model
 import EaselModel.Alphabet.Model3
 import EaselModel.Alphabet.ObjModel
+import EaselModel.Generated.AlphabetsAux
 /-! Line-protocol driver for the C08 model (same ops as harness/h_alphabet.c). -/
 open EaselModel EaselModel.Proto EaselModel.Alphabet
 
@@ -119,7 +120,8 @@ def stepMsa (ws : List String) (op : String) : Option String :=
     let rows := rows.map fun r => if r == "-" || r == "" then ([] : List Nat) else
       ((bytesOfHex r).getD []).map (·.toNat)
     if rows.any (fun r => r.length ≠ (rows.headD []).length || r.contains 0) then some "bad-op" else
-    match Guess.msaGuess (fun ct => (Guess.guessAlphabet ct).2) rows, Guess.msaGuess Guess.guessZ rows with
+    let strict := Generated.AlphabetsAux.msaMixedProbe == 0
+    match Guess.msaGuessV strict (fun ct => (Guess.guessAlphabet ct).2) rows, Guess.msaGuessV strict Guess.guessZ rows with
     | some f, some z => some (if z != f then s!"model-split float={f.2} int={z.2}" else s!"{if f.1 then "ok" else "enoalphabet"} type={f.2}")
     | _, _ => some "fault"
   else none
